@@ -15,22 +15,20 @@ theorem flatMap_congr' {α β : Type} (l : List α) (f g : α → List β) (h : 
 
 /-! ## `react`: fields it never touches -/
 
-@[simp] theorem react_phase (w : Who) (r : Reaction) (s : St) : (react w r s).phase = s.phase := by
-  cases r <;> cases w <;> simp [react, issueCall]
-@[simp] theorem react_fired (w : Who) (r : Reaction) (s : St) : (react w r s).fired = s.fired := by
-  cases r <;> cases w <;> simp [react, issueCall]
-@[simp] theorem react_busName (w : Who) (r : Reaction) (s : St) : (react w r s).busName = s.busName := by
-  cases r <;> cases w <;> simp [react, issueCall]
-@[simp] theorem react_timers (w : Who) (r : Reaction) (s : St) : (react w r s).timers = s.timers := by
-  cases r <;> cases w <;> simp [react, issueCall]
-@[simp] theorem react_registry (w : Who) (r : Reaction) (s : St) : (react w r s).registry = s.registry := by
-  cases r <;> cases w <;> simp [react, issueCall]
-@[simp] theorem react_log (w : Who) (r : Reaction) (s : St) : (react w r s).log = s.log := by
-  cases r <;> cases w <;> simp [react, issueCall]
-@[simp] theorem react_remaining (w : Who) (r : Reaction) (s : St) : (react w r s).remaining = s.remaining := by
-  cases r <;> cases w <;> simp [react, issueCall]
-@[simp] theorem react_current (w : Who) (r : Reaction) (s : St) : (react w r s).current = s.current := by
-  cases r <;> cases w <;> simp [react, issueCall]
+@[simp] theorem react_phase (w : Who) (r : Reaction) (s : St) : (react .repaired w r s).phase = s.phase := by
+  cases r <;> cases w <;> simp [react, issueCall, makeProxyCbs]
+@[simp] theorem react_fired (w : Who) (r : Reaction) (s : St) : (react .repaired w r s).fired = s.fired := by
+  cases r <;> cases w <;> simp [react, issueCall, makeProxyCbs]
+@[simp] theorem react_busName (w : Who) (r : Reaction) (s : St) : (react .repaired w r s).busName = s.busName := by
+  cases r <;> cases w <;> simp [react, issueCall, makeProxyCbs]
+@[simp] theorem react_timers (w : Who) (r : Reaction) (s : St) : (react .repaired w r s).timers = s.timers := by
+  cases r <;> cases w <;> simp [react, issueCall, makeProxyCbs]
+@[simp] theorem react_log (w : Who) (r : Reaction) (s : St) : (react .repaired w r s).log = s.log := by
+  cases r <;> cases w <;> simp [react, issueCall, makeProxyCbs]
+@[simp] theorem react_remaining (w : Who) (r : Reaction) (s : St) : (react .repaired w r s).remaining = s.remaining := by
+  cases r <;> cases w <;> simp [react, issueCall, makeProxyCbs]
+@[simp] theorem react_current (w : Who) (r : Reaction) (s : St) : (react .repaired w r s).current = s.current := by
+  cases r <;> cases w <;> simp [react, issueCall, makeProxyCbs]
 
 /-! ## The reply path -/
 
@@ -41,11 +39,11 @@ theorem flatMap_congr' {α β : Type} (l : List α) (f g : α → List β) (h : 
 @[simp] theorem takeCall_busName (c : Call) (s : St) : (takeCall c s).busName = s.busName := by
   unfold takeCall; cases c.timed <;> simp
 @[simp] theorem completeCall_phase (c : Call) (ok : Bool) (s : St) : (completeCall .repaired c ok s).phase = s.phase := by
-  unfold completeCall; cases c.kind <;> cases ok <;> simp [St.emit, makeProxy]
+  unfold completeCall; cases c.kind <;> cases ok <;> simp [St.emit, makeProxy, makeProxyCbs]
 @[simp] theorem completeCall_fired (c : Call) (ok : Bool) (s : St) : (completeCall .repaired c ok s).fired = s.fired := by
-  unfold completeCall; cases c.kind <;> cases ok <;> simp [St.emit, makeProxy]
+  unfold completeCall; cases c.kind <;> cases ok <;> simp [St.emit, makeProxy, makeProxyCbs]
 @[simp] theorem completeCall_busName (c : Call) (ok : Bool) (s : St) : (completeCall .repaired c ok s).busName = s.busName := by
-  unfold completeCall; cases c.kind <;> cases ok <;> simp [St.emit, makeProxy]
+  unfold completeCall; cases c.kind <;> cases ok <;> simp [St.emit, makeProxy, makeProxyCbs]
 
 /-- Proxies other than `p` are untouched by anything that runs on behalf of proxy `p`. -/
 theorem findProxy_modifyProxy_ne {p q : Nat} (f : Proxy → Proxy) (hf : ∀ x, (f x).id = x.id) (h : q ≠ p) :
@@ -61,39 +59,67 @@ theorem findProxy_modifyProxy_ne {p q : Nat} (f : Proxy → Proxy) (hf : ∀ x, 
     · simp only [findProxy]
       rw [findProxy_modifyProxy_ne f hf h t]
 
-theorem react_proxies_conn (c : Cb) (r : Reaction) (s : St) : (react (.connCb c) r s).proxies = s.proxies := by
-  cases r <;> simp [react, issueCall]
-theorem react_proxies_errback (c : Call) (r : Reaction) (s : St) : (react (.errback c) r s).proxies = s.proxies := by
-  cases r <;> simp [react, issueCall]
+theorem findProxy_append_some {q : Nat} {x : Proxy} (ex : List Proxy) :
+    ∀ {l : List Proxy}, findProxy q l = some x → findProxy q (l ++ ex) = some x
+  | [], h => by simp [findProxy] at h
+  | y :: t, h => by
+    simp only [List.cons_append, findProxy] at h ⊢
+    split
+    · rename_i hy; simpa [hy] using h
+    · rename_i hy; simp only [hy, if_false] at h; exact findProxy_append_some ex h
 
-theorem react_findProxy_ne (p : Nat) (c : Cb) (r : Reaction) (s : St) (q : Nat) (h : q ≠ p) :
-    findProxy q (react (.proxyCb p c) r s).proxies = findProxy q s.proxies := by
-  cases r <;> simp [react, issueCall]
-  · apply findProxy_modifyProxy_ne _ _ h; intro x; rfl
-  · apply findProxy_modifyProxy_ne _ _ h; intro x; rfl
+/-- Every proxy that exists keeps existing, unchanged (callbacks at connection level and errbacks only
+ever add proxies). -/
+def KeepsAll (s s' : St) : Prop := ∀ q x, findProxy q s.proxies = some x → findProxy q s'.proxies = some x
+
+/-- The same for every proxy other than `p` (the callbacks of proxy `p` may edit `p`'s own list). -/
+def Keeps (p : Nat) (s s' : St) : Prop :=
+  ∀ q x, q ≠ p → findProxy q s.proxies = some x → findProxy q s'.proxies = some x
+
+/-- The registry only grows. -/
+def RegMono (s s' : St) : Prop := ∀ e, e ∈ s.registry → e ∈ s'.registry
+
+theorem KeepsAll.refl (s : St) : KeepsAll s s := fun _ _ h => h
+theorem KeepsAll.trans {a b c : St} (h1 : KeepsAll a b) (h2 : KeepsAll b c) : KeepsAll a c :=
+  fun q x h => h2 q x (h1 q x h)
+theorem Keeps.refl (p : Nat) (s : St) : Keeps p s s := fun _ _ _ h => h
+theorem Keeps.trans {p : Nat} {a b c : St} (h1 : Keeps p a b) (h2 : Keeps p b c) : Keeps p a c :=
+  fun q x hq h => h2 q x hq (h1 q x hq h)
+theorem RegMono.refl (s : St) : RegMono s s := fun _ h => h
+theorem RegMono.trans {a b c : St} (h1 : RegMono a b) (h2 : RegMono b c) : RegMono a c :=
+  fun e h => h2 e (h1 e h)
+
+theorem mem_regSet_of_mem {k p : Nat} {e : Nat × Nat} : ∀ {reg : List (Nat × Nat)}, e ∈ reg → e.1 ≠ k → e ∈ regSet k p reg
+  | [], h, _ => by cases h
+  | (k', p') :: t, h, hk => by
+    unfold regSet
+    split
+    · rename_i hk'
+      rcases List.mem_cons.mp h with rfl | h
+      · exact absurd hk' hk
+      · exact List.mem_cons_of_mem _ h
+    · rcases List.mem_cons.mp h with rfl | h
+      · exact List.mem_cons_self
+      · exact List.mem_cons_of_mem _ (mem_regSet_of_mem h hk)
+
+theorem react_keepsAll_conn (c : Cb) (r : Reaction) (s : St) : KeepsAll s (react .repaired (.connCb c) r s) := by
+  intro q x h
+  cases r <;> simp only [react, issueCall, makeProxyCbs] <;> first | exact h | exact findProxy_append_some _ h
+
+theorem react_keepsAll_errback (c : Call) (r : Reaction) (s : St) : KeepsAll s (react .repaired (.errback c) r s) := by
+  intro q x h
+  cases r <;> simp only [react, issueCall, makeProxyCbs] <;> first | exact h | exact findProxy_append_some _ h
+
+theorem react_keeps_proxy (p : Nat) (c : Cb) (r : Reaction) (s : St) : Keeps p s (react .repaired (.proxyCb p c) r s) := by
+  intro q x hq h
+  cases r <;> simp only [react, issueCall, makeProxyCbs]
+  · exact h
+  · exact h
+  · refine Eq.trans ?_ h; apply findProxy_modifyProxy_ne _ _ hq; intro y; rfl
+  · refine Eq.trans ?_ h; apply findProxy_modifyProxy_ne _ _ hq; intro y; rfl
+  · exact findProxy_append_some _ h
 
 /-! ## Pass 1: connection-level callbacks -/
-
-@[simp] theorem runConnCb_phase (c : Cb) (s : St) : (runConnCb c s).phase = s.phase := by simp [runConnCb, St.emit]
-@[simp] theorem runConnCb_fired (c : Cb) (s : St) : (runConnCb c s).fired = s.fired := by simp [runConnCb, St.emit]
-@[simp] theorem runConnCb_busName (c : Cb) (s : St) : (runConnCb c s).busName = s.busName := by simp [runConnCb, St.emit]
-@[simp] theorem runConnCb_timers (c : Cb) (s : St) : (runConnCb c s).timers = s.timers := by simp [runConnCb, St.emit]
-@[simp] theorem runConnCb_registry (c : Cb) (s : St) : (runConnCb c s).registry = s.registry := by simp [runConnCb, St.emit]
-@[simp] theorem runConnCb_proxies (c : Cb) (s : St) : (runConnCb c s).proxies = s.proxies := by
-  simp [runConnCb, St.emit, react_proxies_conn]
-@[simp] theorem runConnCb_log (c : Cb) (s : St) : (runConnCb c s).log = s.log ++ [.connCb c.id] := by simp [runConnCb, St.emit]
-
-theorem runConnCbs_frame (cbs : List Cb) : ∀ s : St,
-    (runConnCbs cbs s).phase = s.phase ∧ (runConnCbs cbs s).fired = s.fired ∧
-    (runConnCbs cbs s).busName = s.busName ∧ (runConnCbs cbs s).timers = s.timers ∧
-    (runConnCbs cbs s).registry = s.registry ∧ (runConnCbs cbs s).proxies = s.proxies ∧
-    (runConnCbs cbs s).log = s.log ++ cbs.map (fun c => Fx.connCb c.id) := by
-  induction cbs with
-  | nil => intro s; simp [runConnCbs]
-  | cons c t ih =>
-    intro s
-    obtain ⟨h1, h2, h3, h4, h5, h6, h7⟩ := ih (runConnCb c s)
-    simp [runConnCbs, h1, h2, h3, h4, h5, h6, h7]
 
 /-- The pending table has distinct serials, all below the counter. -/
 def PendOk (s : St) : Prop :=
@@ -116,17 +142,18 @@ theorem pendOk_issueCall (timed : Bool) (k : CallKind) (s : St) (h : PendOk s) :
     · exact Nat.lt_succ_of_lt (hlt c hc)
     · subst hc; simp [issueCall]
 
-theorem react_pendOk (w : Who) (r : Reaction) (s : St) (h : PendOk s) : PendOk (react w r s) := by
+theorem react_pendOk (w : Who) (r : Reaction) (s : St) (h : PendOk s) : PendOk (react .repaired w r s) := by
   cases r
   · exact h
   · exact pendOk_issueCall _ _ _ h
   · cases w <;> exact h
   · cases w <;> exact h
+  · exact h
 
-theorem react_pending_mono (w : Who) (r : Reaction) (s : St) (c : Call) (h : c ∈ s.pending) : c ∈ (react w r s).pending := by
-  cases r <;> cases w <;> simp [react, issueCall, h]
+theorem react_pending_mono (w : Who) (r : Reaction) (s : St) (c : Call) (h : c ∈ s.pending) : c ∈ (react .repaired w r s).pending := by
+  cases r <;> cases w <;> simp [react, issueCall, makeProxyCbs, h]
 
-theorem runConnCbs_pendOk (cbs : List Cb) : ∀ s : St, PendOk s → PendOk (runConnCbs cbs s) := by
+theorem runConnCbs_pendOk (cbs : List Cb) : ∀ s : St, PendOk s → PendOk (runConnCbs .repaired cbs s) := by
   induction cbs with
   | nil => intro s h; exact h
   | cons c t ih =>
@@ -134,7 +161,7 @@ theorem runConnCbs_pendOk (cbs : List Cb) : ∀ s : St, PendOk s → PendOk (run
     apply ih
     exact react_pendOk _ _ _ h
 
-theorem runConnCbs_pending_mono (cbs : List Cb) : ∀ (s : St) (c : Call), c ∈ s.pending → c ∈ (runConnCbs cbs s).pending := by
+theorem runConnCbs_pending_mono (cbs : List Cb) : ∀ (s : St) (c : Call), c ∈ s.pending → c ∈ (runConnCbs .repaired cbs s).pending := by
   induction cbs with
   | nil => intro s c h; exact h
   | cons d t ih =>
@@ -149,24 +176,24 @@ def failFx (c : Call) : List Fx :=
   (if c.timed then [Fx.timerCancelled c.serial] else []) ++ [Fx.callErr c.serial (errKindOf c.kind)]
 
 theorem failCall_frame (c : Call) (s : St) :
-    (failCall c s).phase = s.phase ∧ (failCall c s).fired = s.fired ∧ (failCall c s).busName = s.busName ∧
-    (failCall c s).registry = s.registry ∧ (failCall c s).proxies = s.proxies ∧
-    (failCall c s).log = s.log ++ failFx c ∧
-    (failCall c s).timers = if c.timed then s.timers.filter (· ≠ c.serial) else s.timers := by
-  unfold failCall failFx
+    (failCall .repaired c s).phase = s.phase ∧ (failCall .repaired c s).fired = s.fired ∧ (failCall .repaired c s).busName = s.busName ∧
+    (failCall .repaired c s).registry = s.registry ∧ (failCall .repaired c s).proxies = s.proxies ∧
+    (failCall .repaired c s).log = s.log ++ failFx c ∧
+    (failCall .repaired c s).timers = if c.timed then s.timers.filter (· ≠ c.serial) else s.timers := by
+  unfold failCall .repaired failFx
   cases c.timed <;> simp [St.emit, react_proxies_errback]
 
 theorem failCalls_frame (calls : List Call) : ∀ s : St,
-    (failCalls calls s).phase = s.phase ∧ (failCalls calls s).fired = s.fired ∧
-    (failCalls calls s).busName = s.busName ∧ (failCalls calls s).registry = s.registry ∧
-    (failCalls calls s).proxies = s.proxies ∧
-    (failCalls calls s).log = s.log ++ calls.flatMap failFx ∧
-    (∀ t ∈ (failCalls calls s).timers, t ∈ s.timers ∧ ∀ c ∈ calls, c.timed = true → c.serial ≠ t) := by
+    (failCalls .repaired calls s).phase = s.phase ∧ (failCalls .repaired calls s).fired = s.fired ∧
+    (failCalls .repaired calls s).busName = s.busName ∧ (failCalls .repaired calls s).registry = s.registry ∧
+    (failCalls .repaired calls s).proxies = s.proxies ∧
+    (failCalls .repaired calls s).log = s.log ++ calls.flatMap failFx ∧
+    (∀ t ∈ (failCalls .repaired calls s).timers, t ∈ s.timers ∧ ∀ c ∈ calls, c.timed = true → c.serial ≠ t) := by
   induction calls with
   | nil => intro s; simp [failCalls]
   | cons c t ih =>
     intro s
-    obtain ⟨h1, h2, h3, h4, h5, h6, h7⟩ := ih (failCall c s)
+    obtain ⟨h1, h2, h3, h4, h5, h6, h7⟩ := ih (failCall .repaired c s)
     obtain ⟨g1, g2, g3, g4, g5, g6, g7⟩ := failCall_frame c s
     refine ⟨by simp [failCalls, h1, g1], by simp [failCalls, h2, g2], by simp [failCalls, h3, g3],
       by simp [failCalls, h4, g4], by simp [failCalls, h5, g5], by simp [failCalls, h6, g6], ?_⟩
@@ -199,11 +226,11 @@ def proxyFx (proxies : List Proxy) (slot : Nat × Nat) : List Fx :=
   | none => []
 
 theorem runProxyCb_frame (p : Nat) (c : Cb) (s : St) :
-    (runProxyCb p c s).phase = s.phase ∧ (runProxyCb p c s).fired = s.fired ∧
-    (runProxyCb p c s).busName = s.busName ∧ (runProxyCb p c s).registry = s.registry ∧
-    (runProxyCb p c s).timers = s.timers ∧
-    (runProxyCb p c s).log = s.log ++ [Fx.proxyCb p c.id] ∧
-    (∀ q, q ≠ p → findProxy q (runProxyCb p c s).proxies = findProxy q s.proxies) := by
+    (runProxyCb .repaired p c s).phase = s.phase ∧ (runProxyCb .repaired p c s).fired = s.fired ∧
+    (runProxyCb .repaired p c s).busName = s.busName ∧ (runProxyCb .repaired p c s).registry = s.registry ∧
+    (runProxyCb .repaired p c s).timers = s.timers ∧
+    (runProxyCb .repaired p c s).log = s.log ++ [Fx.proxyCb p c.id] ∧
+    (∀ q, q ≠ p → findProxy q (runProxyCb .repaired p c s).proxies = findProxy q s.proxies) := by
   refine ⟨by simp [runProxyCb, St.emit], by simp [runProxyCb, St.emit], by simp [runProxyCb, St.emit],
     by simp [runProxyCb, St.emit], by simp [runProxyCb, St.emit], by simp [runProxyCb, St.emit], ?_⟩
   intro q hq
@@ -212,16 +239,16 @@ theorem runProxyCb_frame (p : Nat) (c : Cb) (s : St) :
   simp [St.emit]
 
 theorem runProxyCbs_frame (p : Nat) (cbs : List Cb) : ∀ s : St,
-    (runProxyCbs p cbs s).phase = s.phase ∧ (runProxyCbs p cbs s).fired = s.fired ∧
-    (runProxyCbs p cbs s).busName = s.busName ∧ (runProxyCbs p cbs s).registry = s.registry ∧
-    (runProxyCbs p cbs s).timers = s.timers ∧
-    (runProxyCbs p cbs s).log = s.log ++ cbs.map (fun c => Fx.proxyCb p c.id) ∧
-    (∀ q, q ≠ p → findProxy q (runProxyCbs p cbs s).proxies = findProxy q s.proxies) := by
+    (runProxyCbs .repaired p cbs s).phase = s.phase ∧ (runProxyCbs .repaired p cbs s).fired = s.fired ∧
+    (runProxyCbs .repaired p cbs s).busName = s.busName ∧ (runProxyCbs .repaired p cbs s).registry = s.registry ∧
+    (runProxyCbs .repaired p cbs s).timers = s.timers ∧
+    (runProxyCbs .repaired p cbs s).log = s.log ++ cbs.map (fun c => Fx.proxyCb p c.id) ∧
+    (∀ q, q ≠ p → findProxy q (runProxyCbs .repaired p cbs s).proxies = findProxy q s.proxies) := by
   induction cbs with
   | nil => intro s; simp [runProxyCbs]
   | cons c t ih =>
     intro s
-    obtain ⟨h1, h2, h3, h4, h5, h6, h7⟩ := ih (runProxyCb p c s)
+    obtain ⟨h1, h2, h3, h4, h5, h6, h7⟩ := ih (runProxyCb .repaired p c s)
     obtain ⟨g1, g2, g3, g4, g5, g6, g7⟩ := runProxyCb_frame p c s
     refine ⟨by simp [runProxyCbs, h1, g1], by simp [runProxyCbs, h2, g2], by simp [runProxyCbs, h3, g3],
       by simp [runProxyCbs, h4, g4], by simp [runProxyCbs, h5, g5], by simp [runProxyCbs, h6, g6], ?_⟩
@@ -246,7 +273,7 @@ theorem runProxies_basic (reg : List (Nat × Nat)) : ∀ s : St,
       · have hv : Variant.repaired.snapshotCallbacks = true := rfl
         simp only [ha, hv, if_true]
         obtain ⟨g1, g2, g3, g4, g5, _, _⟩ := runProxyCbs_frame p q.cbs s
-        obtain ⟨h1, h2, h3, h4, h5⟩ := ih (runProxyCbs p q.cbs s)
+        obtain ⟨h1, h2, h3, h4, h5⟩ := ih (runProxyCbs .repaired p q.cbs s)
         exact ⟨by rw [h1, g1], by rw [h2, g2], by rw [h3, g3], by rw [h4, g4], by rw [h5, g5]⟩
       · have ha' : q.alive = false := by simpa using ha
         simp only [ha', Bool.false_eq_true, if_false]
@@ -274,10 +301,10 @@ theorem runProxies_frame (reg : List (Nat × Nat)) (hnd : (reg.map (·.2)).Nodup
       · have hv : Variant.repaired.snapshotCallbacks = true := rfl
         simp only [ha, hv, if_true]
         obtain ⟨g1, g2, g3, g4, g5, g6, g7⟩ := runProxyCbs_frame p q.cbs s
-        obtain ⟨h1, h2, h3, h4, h5, h6⟩ := ih hnd' (runProxyCbs p q.cbs s)
+        obtain ⟨h1, h2, h3, h4, h5, h6⟩ := ih hnd' (runProxyCbs .repaired p q.cbs s)
         refine ⟨by rw [h1, g1], by rw [h2, g2], by rw [h3, g3], by rw [h4, g4], by rw [h5, g5], ?_⟩
         rw [h6, g6]
-        have hcongr : t.flatMap (proxyFx (runProxyCbs p q.cbs s).proxies) = t.flatMap (proxyFx s.proxies) := by
+        have hcongr : t.flatMap (proxyFx (runProxyCbs .repaired p q.cbs s).proxies) = t.flatMap (proxyFx s.proxies) := by
           apply flatMap_congr'
           intro x hx
           have hxp : x.2 ≠ p := fun e => hp (e ▸ List.mem_map_of_mem hx)
